@@ -171,6 +171,7 @@ func Execute(x *vstat.Ctx, sc Scenario, mon func(r *Run, info StepInfo) error, o
 	for _, d := range w.Devices {
 		d.ClearFaults()
 	}
+	w.S.Unpark() // the devices answer again: what kept failing is retried
 	for _, t := range sc.TargetIDs() {
 		if !w.Connected(t) {
 			if err := w.LinkUp(t); err != nil {
